@@ -1280,5 +1280,39 @@ def gc9(F, R):
                 R.bad("GC9", "GC9/%s/%s-%s" % (fk, e.field.split("::")[1], e.op), e.where(),
                       "a slot is removed from a store: later get(..).unwrap() on it panics and a save/load round trip "
                       "shrinks the store")
+    # ... and every id below the capacity has a slot from the start: the constructor builds the vertex table with
+    # `with_capacity_some(capacity, blank)`, or with `with_capacity_none(capacity)` filled by a loop over exactly `0..capacity`
+    ctor = F.fn("Sodg", "empty")
+    if ctor is None:
+        R.missing("GC9", "Sodg::empty")
+    else:
+        R.analysed(ctor)
+        vt = None
+        for site, kind, st in ctor.sites():
+            if kind == "stmt" and st["k"] == "assign" and st["rv"]["k"] == "aggregate" and st["rv"].get("adt") == "Sodg":
+                vt = strip_load(dict(ctor.expr_rvalue(st["rv"], site)[3]).get("vertices", ("?",)))
+        cap = ("param", 1)
+        total = False
+        if vt is not None and vt[0] == "call" and vt[1].split("::")[-1] == "with_capacity_some" and vt[2] and strip_load(vt[2][0]) == cap:
+            total = True
+        elif vt is not None and vt[0] == "call" and vt[1].split("::")[-1] == "with_capacity_none" and vt[2] and strip_load(vt[2][0]) == cap:
+            for e2 in Collector(F).collect(ctor):
+                if e2.kind == "call" and e2.krate == "emap" and e2.name == "insert" and len(e2.args) >= 3 and \
+                        strip_sites(strip_load(e2.args[0])) == strip_sites(vt):
+                    key = strip_load(e2.args[1])
+                    if key[0] == "item":
+                        it = strip_load(key[1])
+                        rng = strip_load(it[1]) if it[0] == "iter" else None
+                        if rng is not None and rng[0] == "agg" and rng[1] == "Range":
+                            f = dict(rng[3])
+                            if strip_load(f.get("start")) == ("const", 0) and strip_load(f.get("end")) == cap:
+                                total = True
+        if total:
+            R.ok("GC9", ctor.where(), "the constructor gives every id below the capacity a slot")
+        else:
+            R.bad("GC9", "GC9/Sodg::empty/vertex-table-not-total", ctor.where(),
+                  "the constructor does not provably give every id below the capacity a slot (`with_capacity_some(capacity, blank)`, or a "
+                  "fill loop over exactly `0..capacity`): the last id(s) have no slot — add(), bind(), put() on them panic although they are "
+                  "within the capacity, and next_id() runs out early", {"vertices": show(vt, ctor)[:200] if vt is not None else None})
     R.note("GC9: %d whole-map operations examined" % n)
     R.ok("GC9", "(crate)", "no slot removal on vertices/stores/branches outside the scoped exemption (%d map operations)" % n)
